@@ -261,6 +261,18 @@ PROPS = {
         assumptions=["atomic swap(0) / drain are linearizable, so an increment lands in exactly one readout", "Registry::visit_* visits every registered metric exactly once"],
         unreached=["MetricAccumulatorEntry's Entry::write (names, labels as dimensions, units)", "reporter task", "unit mapping"],
     ),
+    "C17": dict(
+        verus=[("globalsink", {})],
+        technique="Verus contracts on the real routing functions inside the global_entry_sink! macro body (get_test_sink, try_sink, try_append), process-global state read through stand-in accessors",
+        level_text="Deductive proof (Verus/z3), for every state of the four places a destination can be installed: an entry appended through a global sink goes to exactly one destination - the calling thread's test sink if one is installed, "
+                   "otherwise the current runtime's test sink, otherwise the attached sink (the entry is moved into the one append) - and with none of these try_append hands the entry back unchanged; try_sink returns that same choice. "
+                   "NOT decided: attach (panic without poisoning), installing / removing test sinks and the guards that restore routing on drop, anything across threads or runtimes.",
+        level_note="Trusted: Verus + z3. The functions are located inside the macro_rules! token tree and extracted verbatim; `$crate::__test_util! { .. }` is expanded to its argument (feature test-util on), and the five accessors of "
+                   "process-global state (thread-local cell, tokio Handle::try_current, the per-runtime map behind a Mutex, the RwLock holding the attached sink) are rewritten (M2-M5, exact text) to stand-ins that return one thread's snapshot.",
+        explanation="global sink routing precedence",
+        assumptions=["the accessors return what is installed at the moment of the call (one thread's view; no concurrent install / remove)"],
+        unreached=["attach / AttachHandle", "set_test_sink*, guards (ThreadLocalTestSinkGuard, runtime guard) and their Drop", "without the test-util feature (the test-sink branch is compiled out)"],
+    ),
     "C18": dict(
         verus=[("timers", {})],
         kani=["timers_shared"],
